@@ -8,7 +8,7 @@ from ..cfg import build_cfg, calls_in, node_calls
 from ..core import Ctx, property_info, rule
 from ..exc import FuncExc, MayRaise, _handler_types
 from ..model import AnalysisError, FuncInfo, norm_text, walk_no_nested
-from ..q import is_self_attr, self_attr_writes, unparse
+from ..q import A, is_self_attr, self_attr_writes, unparse
 
 P = "xsdata.formats.dataclass.parsers"
 DOCUMENTED = {"ParserError", "ConverterError", "XmlContextError", "XmlHandlerError"}
@@ -93,14 +93,13 @@ def escape_analysis(ctx: Ctx) -> None:
     for q in ENTRY_POINTS:
         fi = ctx.repo.func(q)
         esc = mr.escaping(fi)
-        bad = {e: o for e, o in esc.items() if not any(hier.catches(d, e) for d in DOCUMENTED | ENVIRONMENT)}
-        ctx.ob(f"{q.split(':')[1]} raises only {sorted(DOCUMENTED)}", not bad, at=fi, construct=f"escape:{q.split(':')[1]}",
-               msg=f"may also raise {sorted(bad)}", witness={e: o.chain() for e, o in bad.items()})
+        bad = {e: orgs for e, orgs in esc.items() if not any(hier.catches(d, e) for d in DOCUMENTED | ENVIRONMENT)}
+        if not bad:
+            ctx.ob(f"{q.split(':')[1]} raises only {sorted(DOCUMENTED)}", True, at=fi, construct=f"escape:{q.split(':')[1]}")
+        # otherwise one obligation per leaking origin (below) carries the verdict, so that findings are keyed by the leaking construct
         # one obligation per origin site so that findings are keyed by the leaking construct
-        for e, o in bad.items():
-            leaf = o
-            while leaf.via is not None:
-                leaf = leaf.via
+        for e, o in [(e, o) for e, orgs in bad.items() for o in orgs]:
+            leaf = o.leaf()
             key = (e, f"{leaf.func}@{leaf.what}")
             if key in reported:
                 continue
@@ -224,6 +223,26 @@ def shape_validation(ctx: Ctx) -> None:
                         why = "self-guarded parameter"
                     ctx.ob(f"{m.name}: {callee.name}({a.arg}={unparse(arg)}) receives a verified dict", why is not None, at=m, node=c,
                            msg=f"{unparse(arg)} is passed as a dict without an isinstance check on any path")
+    # str-key subscripts on document values: only where find_var verified the nested dict (the wrapper-key branch)
+    bd = ctx.repo.func(f"{P}.dict:DictDecoder.bind_dataclass")
+    g = build_cfg(bd.node)
+    for node in walk_no_nested(bd.node):
+        if isinstance(node, ast.Subscript) and isinstance(node.ctx, ast.Load) and unparse(node.value) == "value" and "local_name" in unparse(node.slice):
+            n_sites += 1
+            cn = g.node_of(node)
+            guards = [t for t in g.nodes if t.kind == "test" and isinstance(t.ast, ast.Compare) and isinstance(t.ast.ops[0], ast.Eq) and {unparse(t.ast.left), unparse(t.ast.comparators[0])} == {"key", "var.wrapper"}]
+            ctx.ob("bind_dataclass: value[var.local_name] only when the matched key is the wrapper (the find_var branch that verified the nested dict)", cn is not None and any(g.only_if(cn.id, t.id, True) for t in guards), at=bd, node=node,
+                   msg="a field with a wrapper that was matched by its own name carries a list / scalar: subscripting it with a str raises TypeError")
+    fv = ctx.repo.func(f"{P}.dict:DictDecoder.find_var")
+    gv = build_cfg(fv.node)
+    for node in walk_no_nested(fv.node):
+        if isinstance(node, ast.Subscript) and isinstance(node.ctx, ast.Load) and unparse(node.value) == "value" and "local_name" in unparse(node.slice):
+            n_sites += 1
+            cn = gv.node_of(node)
+            inst = [t for t in gv.nodes if t.kind == "test" and A(unparse(t.ast)) == A("isinstance(value, dict)")]
+            memb = [t for t in gv.nodes if t.kind == "test" and A(unparse(t.ast)) == A("var.local_name in value")]
+            ok = cn is not None and any(gv.only_if(cn.id, t.id, True) for t in inst) and any(gv.only_if(cn.id, t.id, True) for t in memb)
+            ctx.ob("find_var: value[var.local_name] only after isinstance(value, dict) and var.local_name in value", ok, at=fv, node=node, msg="unverified nested lookup")
     ctx.floor("dict-shape use sites in the decoder", n_sites, 12)
     ctx.note("C15.R4 self-guarding", {k: sorted(v) for k, v in self_guarding.items()})
     # dict(value) for attribute maps
